@@ -10,6 +10,7 @@ import (
 	"regexp"
 	"strings"
 	"testing"
+	"unicode"
 
 	"pgregory.net/rapid"
 	"verif/lib"
@@ -20,6 +21,20 @@ type c11Case struct {
 	Corpus corpusSel `json:"corpus"`
 	X      recipe    `json:"x"`
 	Ts     []xform   `json:"ts,omitempty"` // optional presentation changes applied first (decoration, case, blank lines ...)
+	Pad    int       `json:"pad,omitempty"` // a first line of exactly Pad ASCII bytes (newline included) in front of X: moves every later byte offset
+}
+
+// c11Pad returns one filler line of exactly n bytes (n >= 2), newline included.
+func c11Pad(n int) []byte {
+	b := make([]byte, 0, n)
+	for len(b) < n-1 {
+		if len(b)%7 == 6 {
+			b = append(b, ' ')
+		} else {
+			b = append(b, 'q')
+		}
+	}
+	return append(b, '\n')
 }
 
 func c11Gen(t *rapid.T) interface{} {
@@ -101,6 +116,10 @@ func c11Check(ci interface{}) lib.Outcome {
 		x = joinLines(ls)
 	}
 	desc := fmt.Sprintf("threshold %v, X = %s%s", c.Thr, c.X.describe(), xformNames(c.Ts))
+	if c.Pad >= 2 {
+		x = append(c11Pad(c.Pad), x...)
+		desc += fmt.Sprintf(" behind a filler line of %d bytes", c.Pad)
+	}
 	if cls := c11Classify(x); cls != "" && openClass(cls) {
 		return lib.Outcome{Excluded: cls}
 	}
@@ -204,6 +223,47 @@ func c11Enum(yield func(interface{}) bool) {
 	}
 }
 
+// c11NonASCIIDocs: corpus documents that contain letters outside ASCII.
+func c11NonASCIIDocs() []int {
+	var out []int
+	for d, f := range assets() {
+		for _, r := range string(f.Content) {
+			if r >= 0x80 && unicode.IsLetter(r) {
+				out = append(out, d)
+				break
+			}
+		}
+	}
+	return out
+}
+
+// c11EnumOffsets: every corpus document with non-ASCII letters behind filler lines of varying byte length, so that
+// each multi-byte character falls on every offset relative to any fixed-size read (stride 1 in the thorough tier).
+func c11EnumOffsets(yield func(interface{}) bool) {
+	shard, nshards := lib.EnvInt("VERIF_SHARD", 0), lib.EnvInt("VERIF_NSHARDS", 1)
+	stride := 4
+	span := 1024
+	if lib.Tier() == "thorough" {
+		stride, span = 1, 4096
+	}
+	off := lib.EnvInt("VERIF_SEED", 1) % stride
+	idx := 0
+	for _, d := range c11NonASCIIDocs() {
+		if len(assets()[d].Content) > 30000 {
+			continue
+		}
+		for pad := 2 + off; pad < span+2; pad += stride {
+			idx++
+			if idx%nshards != shard {
+				continue
+			}
+			if !yield(&c11Case{Thr: 0.8, Corpus: corpusSel{Docs: []int{d}}, X: recipe{Segs: []seg{{Kind: "doc", Doc: d}}}, Pad: pad}) {
+				return
+			}
+		}
+	}
+}
+
 func TestVerif_C11(t *testing.T) {
 	lib.Run(t, lib.Spec{ID: "C11", Part: "generated",
 		Rule: "X = generated license-bearing input (documents in context, scenario files, edited / truncated / concatenated texts), optionally after 1-2 presentation changes (decoration, case, indentation, blank lines, CRLF, doubled period after numbers); oracle (a): the k-th line of Normalize(X), lower-cased and mapped through an independent copy of the spelling table, equals the words Match attributes to line k; (b): licenses of Match(Normalize(X)) == Match(X) incl. token spans, lines and TotalInputLines; inputs in an open known-finding class (F11 https, F12 trailing-hyphen digit token) are excluded and counted; non-trivial = X has a license match and Normalize(X) != X",
@@ -214,5 +274,12 @@ func TestVerif_C11_EveryDoc(t *testing.T) {
 	lib.Run(t, lib.Spec{ID: "C11", Part: "every-document",
 		Rule: "every embedded corpus document and every scenario file, unmodified, full corpus at 0.8",
 		New:  func() interface{} { return &c11Case{} }, Enum: c11Enum, Exhaustive: true,
+		Check: func(c interface{}) lib.Outcome { o := c11Check(c); o.FP = ""; return o }})
+}
+
+func TestVerif_C11_Offsets(t *testing.T) {
+	lib.Run(t, lib.Spec{ID: "C11", Part: "non-ascii-offset-sweep",
+		Rule: "every corpus document (up to 30 KB) that contains letters outside ASCII, behind a filler line of p bytes for p over a window of 1024 (quick, stride 4 rotated by VERIF_SEED) or 4096 (thorough, stride 1) byte offsets; corpus = that document; same oracles as the generated part; non-trivial = the document is still matched",
+		New:  func() interface{} { return &c11Case{} }, Enum: c11EnumOffsets, Exhaustive: true,
 		Check: func(c interface{}) lib.Outcome { o := c11Check(c); o.FP = ""; return o }})
 }
